@@ -180,8 +180,6 @@ structure St where
   term : Obj := {}
   /-- the terminal's binding list is being iterated (`tickit_term_emit_key/mouse` is running) -/
   termIter : Bool := false
-  /-- number of `HierarchyChange` records that were never freed (a root destroyed with requests queued) -/
-  leakedReqs : Nat := 0
   /-- the root window has seen a PRESS (otherwise `mouse_last_*` is whatever `tickit_window_new_root2` left there) -/
   pressSeen : Bool := false
   /-- handler invocations of the current operation, oldest first -/
@@ -397,7 +395,61 @@ def termUnref (st : St) : Out St :=
     let tm := if tm.refcount = 0 then { tm with freed := true } else tm
     pure { st with term := tm }
 
-/-! ## window reference counting and destruction -/
+/-! ## window reference counting and destruction
+
+  `tickit_window_destroy` interleaves surgery on the tree (close the children, drop their references, purge,
+  unlink, free) with the release of what the window owns itself (its bindings, its pen, for the root the
+  terminal reference).  The two parts read and write disjoint state, so the model runs the tree part first
+  (`destroyT`, which returns the windows it freed, in the order they were freed) and releases their belongings
+  afterwards (`releaseWin`). -/
+
+/-- `tickit_window_destroy` on the tree, given the function that drops one reference of a child.
+    Returns the tree and the windows freed (in order). -/
+def destroyTWith (cfg : Cfg) (unrefChild : Tree → Id → Out (Tree × List Id)) (t : Tree) (win : Id) :
+    Out (Tree × List Id) := do
+  let w ← ofRes (WinTree.get t win)
+  -- for(child = first_child; child; child = next) { next = child->next; … }
+  let (t, dead) ← w.children.foldlM (fun (acc : Tree × List Id) (c : Id) => do
+      let (t, dead) := acc
+      let _ ← ofRes (WinTree.get t c)                      -- next = child->next
+      if cfg.destroyClosesChildren then
+        let t ← closeT cfg t c
+        let (t, d) ← unrefChild t c
+        pure (t, dead ++ d)
+      else
+        let (t, d) ← unrefChild t c
+        match t.wins[c]? with
+        | none => .ub .mem s!"unknown window {c}"
+        | some cw =>
+          if cw.freed then .ub .mem s!"tickit_window_destroy: child->parent = NULL written into freed child {c}"
+          else pure (WinTree.set t c { cw with parent := none }, dead ++ d)) (t, [])
+  let w ← ofRes (WinTree.get t win)
+  let t ← if w.parent.isSome then purge cfg t win else pure t
+  let w ← ofRes (WinTree.get t win)
+  let t ← if !w.isClosed then closeT cfg t win else pure t
+  let w ← ofRes (WinTree.get t win)
+  -- root cleanup: after the repair the requests still queued are freed; the drag context goes with the struct
+  let t := if w.isRoot then
+      { t with root := { t.root with changes := if cfg.closePurges then [] else t.root.changes, dragSource := none } }
+    else t
+  pure (WinTree.set t win { w with freed := true }, dead ++ [win])
+
+/-- `tickit_window_unref` on the tree, given `tickit_window_destroy`. -/
+def unrefTWith (destroy : Tree → Id → Out (Tree × List Id)) (t : Tree) (win : Id) : Out (Tree × List Id) := do
+  let w ← ofRes (WinTree.get t win)
+  if w.refcount < 1 then .ub .abort s!"tickit_window_unref: invalid refcount on window {win}"
+  else
+    let t := WinTree.set t win { w with refcount := w.refcount - 1 }
+    if w.refcount - 1 = 0 then destroy t win else pure (t, [])
+
+/-- `tickit_window_destroy` with the recursion budget `fuel` (depth of the subtree). -/
+def destroyT (cfg : Cfg) : Nat → Tree → Id → Out (Tree × List Id)
+  | 0, _, _ => .fuel
+  | fuel + 1, t, win => destroyTWith cfg (unrefTWith (destroyT cfg fuel)) t win
+
+/-- `tickit_window_unref` on the tree. -/
+def unrefT (cfg : Cfg) (t : Tree) (win : Id) : Out (Tree × List Id) :=
+  unrefTWith (destroyT cfg (chainFuel t)) t win
 
 /-- Drop the pen a window holds (`if(win->pen) tickit_pen_unref(win->pen)`). -/
 def dropWinPen (st : St) (win : Id) : Out St :=
@@ -406,64 +458,23 @@ def dropWinPen (st : St) (win : Id) : Out St :=
   | .own => pure st
   | .app k => penUnref st k
 
-/-- `tickit_window_destroy`, given the function that drops one reference of a child. -/
-def destroyWith (cfg : Cfg) (unrefChild : St → Id → Out St) (st : St) (win : Id) : Out St := do
-  -- tickit_bindings_unbind_and_destroy: the bindings here have no UNBIND/DESTROY flag; all are freed
-  let _ ← getW st win
+/-- What `tickit_window_destroy` releases besides the tree surgery: the bindings
+    (`tickit_bindings_unbind_and_destroy`; the bindings of this engine have no UNBIND/DESTROY flag), the pen,
+    and for the root window its three bindings on the terminal and its terminal reference. -/
+def releaseWin (st : St) (win : Id) : Out St := do
   let st := setX st win { getX st win with binds := [] }
   let st ← dropWinPen st win
   let st := setX st win { getX st win with pen := .null }
-  let w ← getW st win
-  -- for(child = first_child; child; child = next) { next = child->next; … }
-  let st ← w.children.foldlM (fun (st : St) (c : Id) => do
-      if cfg.destroyClosesChildren then
-        let _ ← getW st c                      -- next = child->next
-        let t ← closeT cfg st.tree c
-        unrefChild { st with tree := t } c
-      else
-        let _ ← getW st c                      -- next = child->next
-        let st ← unrefChild st c
-        match st.tree.wins[c]? with
-        | none => .ub .mem s!"unknown window {c}"
-        | some cw =>
-          if cw.freed then .ub .mem s!"tickit_window_destroy: child->parent = NULL written into freed child {c}"
-          else pure (setW st c { cw with parent := none })) st
-  let w ← getW st win
-  let t ← if w.parent.isSome then purge cfg st.tree win else pure st.tree
-  let st := { st with tree := t }
-  let w ← getW st win
-  let t ← if !w.isClosed then closeT cfg st.tree win else pure st.tree
-  let st := { st with tree := t }
-  let w ← getW st win
-  -- root cleanup
-  let st ← if w.isRoot then do
-      -- tickit_term_unbind_event_id ×3, tickit_term_unref
-      if st.term.freed then (.ub .mem "root window destroy: use of freed terminal" : Out St)
-      else do
-        let st ← termUnref st
-        if cfg.closePurges then pure { st with tree := { st.tree with root := { st.tree.root with changes := [] } } }
-        else pure { st with leakedReqs := st.leakedReqs + st.tree.root.changes.length,
-                            tree := { st.tree with root := { st.tree.root with changes := [] } } }
-    else pure st
-  let w ← getW st win
-  pure (setW st win { w with freed := true })
-
-/-- `tickit_window_unref`, given `tickit_window_destroy`. -/
-def unrefWith (destroy : St → Id → Out St) (st : St) (win : Id) : Out St := do
-  let w ← getW st win
-  if w.refcount < 1 then .ub .abort s!"tickit_window_unref: invalid refcount on window {win}"
-  else
-    let st := setW st win { w with refcount := w.refcount - 1 }
-    if w.refcount - 1 = 0 then destroy st win else pure st
-
-/-- `tickit_window_destroy` with the recursion budget `fuel` (depth of the subtree). -/
-def destroyW (cfg : Cfg) : Nat → St → Id → Out St
-  | 0, _, _ => .fuel
-  | fuel + 1, st, win => destroyWith cfg (unrefWith (destroyW cfg fuel)) st win
+  if win = 0 then
+    -- tickit_term_unbind_event_id ×3, tickit_term_unref
+    if st.term.freed then .ub .mem "root window destroy: use of freed terminal"
+    else termUnref st
+  else pure st
 
 /-- `tickit_window_unref`. -/
-def unrefW (cfg : Cfg) (st : St) (win : Id) : Out St :=
-  unrefWith (destroyW cfg (chainFuel st.tree)) st win
+def unrefW (cfg : Cfg) (st : St) (win : Id) : Out St := do
+  let (t, dead) ← unrefT cfg st.tree win
+  dead.foldlM releaseWin { st with tree := t }
 
 /-- `tickit_window_ref`. -/
 def refW (st : St) (win : Id) : Out St := do
